@@ -139,6 +139,12 @@ Chunk *search_for_colon(Chunk *pc_question, int depth)
       }
       else if (pc2->Is(CT_SQUARE_CLOSE))
       {
+         if (  square_bracket_depth == 0
+            && depth > 0)
+         {
+            // the bracket was opened outside this nested conditional, which ends here
+            return(pc2);
+         }
          square_bracket_depth--;
       }
       pc2 = pc2->GetNextNcNnl();
